@@ -14,6 +14,7 @@ import (
 	"regexp"
 	"sort"
 	"strings"
+	"time"
 
 	"verif/internal/kit"
 )
@@ -478,6 +479,7 @@ func main() {
 		return true
 	})
 	htpasswdSites(rep, base, auth)
+	htpasswdEntries(rep, base, auth)
 	rep.Finish()
 }
 
@@ -555,4 +557,70 @@ func htpasswdSites(rep *kit.Report, base string, auth func(u, p string) string) 
 			}
 		}
 	}
+}
+
+// htpasswdEntries: (1) a password file with an entry the server cannot verify (bcrypt) is refused, or at least the text
+// of the hash is not a password; (2) a password file replaced by one of the same size with an older modification time
+// (restored from a backup, moved into place) is read again at the next load: the old password is revoked.
+func htpasswdEntries(rep *kit.Report, base string, auth func(u, p string) string) {
+	root := filepath.Join(base, "hp-entries")
+	tok := kit.Token("hp-entries")
+	kit.WriteFile(root, "secret/s.txt", tok)
+	sha := func(pw string) string {
+		h := sha1.Sum([]byte(pw))
+		return "{SHA}" + base64.StdEncoding.EncodeToString(h[:])
+	}
+	served := func(l *kit.Loaded, hdr string) bool {
+		rec, _, _ := kit.Serve(l.Server(""), kit.Get("GET", "/secret/s.txt", "a.test:8080", hdr))
+		rep.Eval(1)
+		return strings.Contains(rec.Body.String(), tok)
+	}
+	cf := fmt.Sprintf("a.test:8080 {\n\troot %s\n\tbasicauth /secret bob htpasswd=pw\n}\n", root)
+	// (1)
+	for _, hash := range []string{"$2y$05$abcdefghijklmnopqrstuuJ6GZ2Wwv6U2ZyWmXkqMrQWuZ9e7RW6a", "$2a$05$abcdefghijklmnopqrstuuJ6GZ2Wwv6U2ZyWmXkqMrQWuZ9e7RW6a"} {
+		kit.WriteFile(root, "pw", "bob:"+hash+"\n")
+		os.Chtimes(filepath.Join(root, "pw"), time.Now(), time.Now().Add(time.Duration(len(hash))*time.Hour))
+		l, err := kit.Load(cf, filepath.Join(base, "Casketfile-hpe"))
+		if err != nil {
+			rep.Class("htpasswd-entries/unverifiable-hash-refused")
+			continue
+		}
+		if served(l, auth("bob", hash)) {
+			sig := "C03/disclosure/text-of-an-unverifiable-hash-accepted-as-password"
+			if strings.HasPrefix(hash, "$2a$") {
+				sig += "/2a" // (the format table of the vendored htpasswd module rejects only $2y$: see BASELINE-REMARKS.md)
+			}
+			rep.Violation(sig, "an htpasswd entry whose hash the server cannot verify was accepted, with the text of the hash as the password", c03case{cf, "GET /secret/s.txt with user bob and the hash text as password", 200, []string{"/secret/s.txt"}, "entry " + hash[:4] + "..."})
+		}
+		l.Close()
+		rep.Class("htpasswd-entries/unverifiable-hash-accepted")
+	}
+	// (2)
+	pwFile := filepath.Join(root, "pw")
+	kit.WriteFile(root, "pw", "bob:"+sha("old-pass")+"\n")
+	t0 := time.Now().Add(-time.Hour)
+	os.Chtimes(pwFile, t0, t0)
+	l, err := kit.Load(cf, filepath.Join(base, "Casketfile-hpe"))
+	if err != nil {
+		rep.Broken("htpasswd entries: %v", err)
+	}
+	if !served(l, auth("bob", "old-pass")) {
+		rep.Broken("htpasswd entries: the original password is not accepted")
+	}
+	l.Close()
+	kit.WriteFile(root, "pw", "bob:"+sha("new-pass")+"\n") // same size
+	t1 := t0.Add(-time.Hour)                               // an older time stamp, as after restoring a backup
+	os.Chtimes(pwFile, t1, t1)
+	l, err = kit.Load(cf, filepath.Join(base, "Casketfile-hpe"))
+	if err != nil {
+		rep.Broken("htpasswd entries: reload: %v", err)
+	}
+	if served(l, auth("bob", "old-pass")) {
+		rep.Violation("C03/disclosure/revoked-password-still-accepted-after-reload", "the password file was replaced (same size, older modification time) and the configuration loaded again: the old password still opens the protected path", c03case{cf, "GET /secret/s.txt with the replaced password", 200, []string{"/secret/s.txt"}, ""})
+	}
+	if !served(l, auth("bob", "new-pass")) {
+		rep.Violation("C03/valid-credentials-refused/after-password-file-replaced", "the new password of the replaced file is refused after the reload", c03case{cf, "GET /secret/s.txt with the new password", 401, nil, ""})
+	}
+	l.Close()
+	rep.Class("htpasswd-entries/file-replaced-between-loads")
 }
